@@ -31,7 +31,7 @@
   `World` puts two PeerConnections back to back (what the harness runs): remote descriptions are the peer's
   last created offer / answer, and a blocked operation finishes when the peer got far enough (`envFor`).
 
-  Not modelled (outside the property's alphabet): rollback, SetCodecPreferences and codec mismatch
+  Not modelled (outside the property's alphabet): SetCodecPreferences and codec mismatch
   (both ends register the default codecs, so no m-section is rejected), Plan-B, simulcast, Transceiver.Stop
   called by the application, GracefulClose (the queue is never closed).
 -/
@@ -105,7 +105,8 @@ inductive Running
 
 inductive Ev
   | fire                                  -- the OnNegotiationNeeded handler was invoked
-  | stable                                -- setDescription succeeded with next state stable
+  | stable                                -- setDescription(answer) succeeded with next state stable: an exchange completed
+  | rolledBack                            -- setDescription(rollback) succeeded (next state stable)
   | withdrawn                             -- negotiationNeededOp cleared a set [[NegotiationNeeded]] (4.7.3.2.4)
   deriving DecidableEq, Repr
 
@@ -150,6 +151,8 @@ structure PC where
   handed : List Nat := []                 -- ids of the senders handed to the application, in order
   -- transports
   gathered : Bool := false                -- a SetLocalDescription succeeded (gathering was started)
+  stFromOffer : Option Bool := none       -- what enqueued the first startTransports: an applied offer (true) or an
+                                          -- applied (provisional) answer (false); roles are derived from it
   stEntered : Bool := false               -- startTransports was entered
   connected : Bool := false               -- startTransports finished: ICE and DTLS are up
   sctpStarted : Bool := false             -- sctpTransport.isStarted
@@ -463,8 +466,8 @@ def createAnswer (pc : PC) : PC × Res :=
 
 /-! ### setDescription -/
 
-/-- SDPType of a description handed to SetLocal/SetRemoteDescription (rollback is not modelled) -/
-inductive Ty | offer | pranswer | answer
+/-- SDPType of what is handed to SetLocal/SetRemoteDescription -/
+inductive Ty | offer | pranswer | answer | rollback
   deriving DecidableEq, Repr
 
 /-- the type a description is applied with: an offer is an offer; an answer's text may be applied as a
@@ -472,7 +475,7 @@ inductive Ty | offer | pranswer | answer
 def descTy (d : Desc) (prov : Bool) : Ty :=
   if d.offer then .offer else if prov then .pranswer else .answer
 
-/-- `checkNextSignalingState` for offers, provisional answers and answers -/
+/-- `checkNextSignalingState` (setDescription proposes `stable` for answers and rollbacks) -/
 def checkNext (cur : Sig) (isLocal : Bool) (ty : Ty) : Option Sig :=
   match cur, isLocal, ty with
   | .stable, true, .offer => some .haveLocalOffer
@@ -483,6 +486,10 @@ def checkNext (cur : Sig) (isLocal : Bool) (ty : Ty) : Option Sig :=
   | .haveRemoteOffer, true, .answer => some .stable
   | .haveRemoteOffer, true, .pranswer => some .haveLocalPranswer
   | .haveLocalPranswer, true, .answer => some .stable
+  | .haveLocalOffer, true, .rollback => some .stable
+  | .haveLocalPranswer, true, .rollback => some .stable
+  | .haveRemoteOffer, false, .rollback => some .stable
+  | .haveRemotePranswer, false, .rollback => some .stable
   | _, _, _ => none
 
 /-- `sd.SDP != pc.lastOffer` / `pc.lastAnswer`: before the first CreateOffer / CreateAnswer the remembered text
@@ -496,24 +503,39 @@ def commitDesc (pc : PC) (isLocal : Bool) (ty : Ty) (d : Desc) : PC :=
   match isLocal, ty with
   | true, .answer =>
     { pc with curLocal := some d, curRemote := pc.pendRemote, pendRemote := none, pendLocal := none }
+  | _, .rollback => { pc with pendLocal := none, pendRemote := none }     -- the rolled-back descriptions go
   | true, _ => { pc with pendLocal := some d }                            -- offer, pranswer
   | false, .answer =>
     { pc with curRemote := some d, curLocal := pc.pendLocal, pendRemote := none, pendLocal := none }
   | false, _ => { pc with pendRemote := some d }                          -- offer, pranswer
 
-/-- `setDescription`; `none` = error, nothing changed -/
+/-- the end of `setDescription`: checkNextSignalingState, the slot assignments, the new state; on reaching
+    stable — by an answer or by a rollback — [[NegotiationNeeded]] is cleared and the check is queued -/
+def applyChecked (pc : PC) (isLocal : Bool) (ty : Ty) (d : Desc) : Option PC :=
+  match checkNext pc.sig isLocal ty with
+  | none => none
+  | some next =>
+    let pc1 := commitDesc pc isLocal ty d
+    if next == .stable then
+      some (onNN { pc1 with sig := next, isNN := false,
+                            events := pc1.events ++ [if ty == .rollback then .rolledBack else .stable] })
+    else some { pc1 with sig := next }
+
+/-- `setDescription` for a description; `none` = error, nothing changed -/
 def setDescription (pc : PC) (isLocal : Bool) (d : Desc) (prov : Bool) : Option PC :=
   if pc.closed then none
   else if isLocal && d.offer && !matchesLast d pc.lastOffer then none     -- errSDPDoesNotMatchOffer
   else if isLocal && !d.offer && !matchesLast d pc.lastAnswer then none   -- errSDPDoesNotMatchAnswer (answer, pranswer)
-  else
-    match checkNext pc.sig isLocal (descTy d prov) with
-    | none => none
-    | some next =>
-      let pc1 := commitDesc pc isLocal (descTy d prov) d
-      if next == .stable then
-        some (onNN { pc1 with sig := next, isNN := false, events := pc1.events ++ [.stable] })
-      else some { pc1 with sig := next }
+  else applyChecked pc isLocal (descTy d prov) d
+
+/-- SetLocalDescription / SetRemoteDescription with type rollback: the SDP text is ignored, nothing but
+    `setDescription` runs (no gathering, no transceiver loop, nothing is enqueued, transceivers and mids created by
+    the rolled-back remote offer stay as they are) -/
+def rollback (pc : PC) (isLocal : Bool) : PC × Res :=
+  if pc.closed then (pc, .err) else
+  match applyChecked pc isLocal .rollback { offer := false, secs := [] } with
+  | none => (pc, .err)
+  | some pc1 => (pc1, .ok)
 
 /-- `setRTPTransceiverCurrentDirection`; stops at the first m-section without a transceiver -/
 def setCurDirs (weOffer : Bool) : List Sec → List Nat → List Tr → List Tr
@@ -623,7 +645,8 @@ def setRemote (pc : PC) (d : Desc) (prov : Bool) : PC × Res :=
     -- loop adjusts the transceivers; startTransports is enqueued when there is no current remote description)
     if descTy d prov != .answer then
       let pc2 := applyRemoteOffer pc1.trs.length d.secs [] pc1
-      if isRenegotiation then (pc2, .ok) else (enqueue pc2 (.st none), .ok)
+      if isRenegotiation then (pc2, .ok)
+      else (enqueue { pc2 with stFromOffer := pc2.stFromOffer.orElse fun _ => some d.offer } (.st none), .ok)
     else ({ pc1 with tail := some (.remoteAnswer d isRenegotiation) }, .ok)
 
 /-- the rest of SetLocalDescription(answer) / SetRemoteDescription(answer) -/
@@ -639,7 +662,9 @@ def runTail (pc : PC) : Tail → PC × Res
     | none => ({ pc with tail := none, trs := trs }, .errLate)
     | some trs =>
       let app := ans.secs.any (·.app)
-      (enqueue { pc with tail := none, trs := trs } (if isRenegotiation then .rtp app else .st (some app)), .ok)
+      if isRenegotiation then (enqueue { pc with tail := none, trs := trs } (.rtp app), .ok)
+      else (enqueue { pc with tail := none, trs := trs, stFromOffer := pc.stFromOffer.orElse fun _ => some false }
+              (.st (some app)), .ok)
 
 /-- Close(): the first call closes; a blocked operation is released by stopping the transports -/
 def close (pc : PC) : PC × Res :=
@@ -661,6 +686,7 @@ inductive Api
   | createAnswer
   | setLocal (d : Desc) (prov : Bool)
   | setRemote (d : Desc) (prov : Bool)
+  | rollback (isLocal : Bool)
   | close
   deriving Repr
 
@@ -673,6 +699,7 @@ def api (pc : PC) : Api → PC × Res
   | .createAnswer => createAnswer pc
   | .setLocal d prov => setLocal pc d prov
   | .setRemote d prov => setRemote pc d prov
+  | .rollback isLocal => rollback pc isLocal
   | .close => close pc
 
 inductive Act
@@ -736,7 +763,11 @@ def Side.other : Side → Side
     it with an error). -/
 def envFor (x y : PC) : Option Bool :=
   match x.running with
-  | some (.st _) => if x.gathered && y.gathered && y.stEntered && !y.closed then some true else none
+  | some (.st _) =>
+    -- two ends that both started their transports from an applied offer (one of them rolled back since) both take
+    -- the DTLS client role against an actpass peer: the handshake never happens
+    if x.gathered && y.gathered && y.stEntered && !y.closed
+        && !(x.stFromOffer == some true && y.stFromOffer == some true) then some true else none
   | some .sctp => if y.closed then some false else if y.sctpStarted then some true else none
   | none => none
 
@@ -751,6 +782,7 @@ inductive WApi
   | createAnswer
   | setLocalOffer | setLocalAnswer | setRemoteOffer | setRemoteAnswer
   | setLocalPranswer | setRemotePranswer  -- the last answer's text applied with type pranswer
+  | rollbackLocal | rollbackRemote
   | close
   deriving Repr, DecidableEq
 
@@ -768,6 +800,8 @@ def WApi.toApi (x y : PC) : WApi → Option Api
   | .setRemoteAnswer => some (.setRemote (y.lastAnswer.getD { offer := false, secs := [] }) false)
   | .setLocalPranswer => some (.setLocal (x.lastAnswer.getD { offer := false, secs := [] }) true)
   | .setRemotePranswer => some (.setRemote (y.lastAnswer.getD { offer := false, secs := [] }) true)
+  | .rollbackLocal => some (.rollback true)
+  | .rollbackRemote => some (.rollback false)
   | .close => some .close
 
 inductive WAct
